@@ -195,6 +195,9 @@ class Builder:
             s = substitute(self.build(t[1]), v)
             scribble(v)
             return self._note(s, t)
+        if k == "ualias":
+            from . import fwdtype
+            return self._note({"slug": fwdtype.SlugSchema, "point": fwdtype.PointSchema}[t[1]](), t)
         if k == "fwd":
             from .fwdtype import wrap
             return self._note(wrap(self.build(t[1]), t[2] if len(t) > 2 else None), t)
@@ -376,6 +379,8 @@ def show(t):
         return f"from_native({src(t[1])})"
     if k == "subst":
         return f"({show(t[1])} % {src(t[2])})"
+    if k == "ualias":
+        return f"UserAlias:{t[1]}"
     if k == "fwd":
         return f"Fwd({show(t[1])})"
     return repr(t)
